@@ -24,7 +24,7 @@ REAL_VS_STUB = {
     'stub': ['multiprocessing.Lock and RawValue (shared-memory stub under the scheduler)', 'choice of which process runs', 'fault injection (KILL, RAISE, FORK_FAIL, ALLOC_FAIL, BOMB)'],
 }
 
-EXPR_FAMILIES = ['P1', 'P2', 'P3', 'P4', 'P5', 'P6', 'P7', 'P9', 'P10', 'P14', 'P15', 'P15', 'P16', 'P17', 'P18', 'P19', 'P20']
+EXPR_FAMILIES = ['P1', 'P2', 'P3', 'P4', 'P5', 'P6', 'P7', 'P9', 'P10', 'P14', 'P15', 'P15', 'P16', 'P17', 'P18', 'P19', 'P20', 'P21', 'P21']
 YIELD_KINDS = {K[k] for k in ('FORK', 'EXIT', 'WAIT', 'KILLSIG', 'ACQ', 'REL', 'RGET', 'RSET', 'LINE')}
 
 
@@ -85,7 +85,7 @@ def gen_case(rng, index, tier):
         if tier == 'thorough' and rng.random() < 0.3:
             prog['n'] = rng.choice([8, 12, 16])   # deeper bounds in the thorough tier
         kind = 'expr'
-    elif r < 0.86:
+    elif r < 0.84:
         prog = gen_fem(rng)
         kind = 'fem'
     elif r < 0.95:
@@ -112,9 +112,9 @@ def gen_fem(rng):
 
 def gen_locate(rng):
     npts = rng.choice([1, 2, 3, 5, 8])
-    missing = rng.random() < 0.35
+    missing = rng.random() < 0.5
     return dict(family='P12', mesh=rng.choice(['line', 'quad', 'tri']), nelems=rng.choice([2, 3, 4]), npts=npts,
-                missing=(rng.randrange(npts) if missing else -1), skip_missing=rng.random() < 0.5, pseed=rng.randrange(1 << 30))
+                missing=(rng.randrange(npts) if missing else -1), skip_missing=rng.random() < 0.4, pseed=rng.randrange(1 << 30))
 
 
 # ---------------------------------------------------------------------- workloads -> callables
